@@ -19,6 +19,7 @@ type Model struct {
 	Offset   int
 	WrapMode int
 	width    int
+	vx       *vaxis.Vaxis
 }
 
 type line struct {
@@ -31,8 +32,9 @@ func (l *line) append(t vaxis.Cell) {
 
 func (m *Model) Draw(win vaxis.Window) {
 	w, h := win.Size()
-	if w != m.width {
+	if w != m.width || win.Vx != m.vx {
 		m.width = w
+		m.vx = win.Vx
 		m.Layout()
 	}
 	if len(m.lines)-m.Offset < h {
@@ -71,6 +73,11 @@ func (m *Model) Layout() {
 				l = &line{}
 				col = 0
 				continue
+			}
+			if m.vx != nil {
+				// Characters measures with the Unicode method;
+				// the terminal we draw on may use another one
+				char.Width = m.vx.RenderedWidth(char.Grapheme)
 			}
 			if col > 0 && col+char.Width > m.width {
 				// the character doesn't fit in what is left of
